@@ -25,7 +25,17 @@ partial def parseBracket (inp : List Char) (first : Bool) (acc : List ClsItem) :
   match inp with
   | [] => .error "EBRACK"
   | ']' :: r => if first then parseBracket' ']' r acc else .ok (acc.reverse, r)
-  | '[' :: ':' :: _ => .error "named class unsupported"
+  | '[' :: ':' :: r =>
+    let name := String.ofList (r.takeWhile (· ≠ ':'))
+    match r.dropWhile (· ≠ ':') with
+    | ':' :: ']' :: r' =>
+      let k : Option CClass := match name with
+        | "alpha" => some .alpha | "digit" => some .digit | "upper" => some .upper
+        | "lower" => some .lower | "alnum" => some .alnum | _ => none
+      match k with
+      | some k => parseBracket r' false (ClsItem.named k :: acc)
+      | none => .error "named class unsupported"
+    | _ => .error "ECTYPE"
   | '[' :: '.' :: _ => .error "collating symbol unsupported"
   | '[' :: '=' :: _ => .error "equivalence class unsupported"
   | c :: r => parseBracket' c r acc
